@@ -981,3 +981,44 @@ class PathEval(Flow):
         if 0 < local <= self.b.arg_count:
             return ("param", local)
         return ("unknown",)
+
+
+# ---------------------------------------------------------------------- iterator-loop helpers
+
+ADAPTOR_OK = ("into_iter", "iter_mut", "iter", "enumerate", "rev", "filter", "by_ref", "as_mut", "deref_mut", "deref",
+              "get_unchecked_mut", "as_mut_slice", "as_slice", "new", "new_unchecked", "get_mut", "as_mut_ptr")
+
+
+def iterator_chain(expr):
+    """Names of the calls from an iterator expression down to its source: [(short_name, full_name), ...], source_expr."""
+    chain = []
+    x = strip_refs(expr)
+    while x[0] == "call" and x[2]:
+        nm = x[1] or "?"
+        chain.append((nm.split("::")[-1], nm))
+        x = strip_refs(x[2][0])
+    return chain, x
+
+
+def loop_exit_edges(body, flow, next_bb):
+    """Exit edges (a, b) of the natural loop(s) containing block `next_bb`, on normal edges, with the label
+    knowledge whether the edge is the `None` outcome of the iterator call at next_bb."""
+    res = []
+    loops = [(h, blk) for h, blk in body.loops().items() if next_bb in blk]
+    if not loops:
+        return None
+    # innermost loop containing the call
+    h, blk = min(loops, key=lambda x: len(x[1]))
+    dest = place_str(body.term(next_bb)["dest"])
+    for a in blk:
+        if body.is_cleanup(a):
+            continue
+        for b in body.normal_succ(a):
+            if b in blk:
+                continue
+            if body.term(b)["k"] == "unreachable":
+                continue
+            labs = flow.edge_labels(a).get(b, [])
+            is_none = any(l[0] == "variant" and place_str(l[3]) == dest and l[2] == "None" for l in labs)
+            res.append((a, b, is_none))
+    return res
